@@ -2,5 +2,5 @@ CONSTANTS NodeId = 5  Depth = 2  Walk = FALSE  WalkLen = 0
 CONSTANT Tbl <- T4  Letters <- LE4  ProbeLetters <- PE
 INIT Init
 NEXT Next
-VIEW View
+VIEW ViewM
 INVARIANT InvC15
